@@ -1519,3 +1519,249 @@ Section Tmp.
       rewrite Hr; reflexivity.
   Qed.
 End Tmp.
+
+(* ---- trace acceptance: soundness, and what an accepted observation enjoys ------------------------ *)
+
+Lemma outcome_eqb_eq a b : outcome_eqb a b = true -> a = b.
+Proof. destruct a as [[|]|], b as [[|]|]; simpl; congruence. Qed.
+
+Lemma action_eqb_eq a b : action_eqb a b = true -> a = b.
+Proof.
+  destruct a, b; simpl; try discriminate; intros H;
+    repeat match goal with
+           | X : (_ && _)%bool = true |- _ => apply Bool.andb_true_iff in X as [? ?]
+           end;
+    repeat match goal with
+           | X : Nat.eqb _ _ = true |- _ => apply Nat.eqb_eq in X
+           | X : N.eqb _ _ = true |- _ => apply N.eqb_eq in X
+           | X : rop_eqb _ _ = true |- _ => apply rop_eqb_eq in X
+           | X : outcome_eqb _ _ = true |- _ => apply outcome_eqb_eq in X
+           | X : Bool.eqb _ _ = true |- _ => apply Bool.eqb_prop in X
+           end; subst; reflexivity.
+Qed.
+
+Lemma actions_eqb_eq a : forall b, actions_eqb a b = true -> a = b.
+Proof.
+  induction a as [|x a IH]; destruct b as [|y b]; simpl; try discriminate; [reflexivity|].
+  intros H. apply Bool.andb_true_iff in H as [H1 H2]. apply action_eqb_eq in H1.
+  rewrite (IH b H2), H1. reflexivity.
+Qed.
+
+(* soundness of the checker: an accepted observation is what an observer sees of a run of
+   the machine (for a well-formed scenario) *)
+Theorem accepts_sound sc cert obs :
+  accepts sc cert obs = true -> uid_ok (sc_uid sc) ->
+  wf_sc sc /\ exists s, exec sc (init sc) cert = Some s /\ filter observable cert = obs.
+Proof.
+  unfold accepts. intros H Hu. apply Bool.andb_true_iff in H as [Hw H].
+  split; [split; assumption|].
+  destruct (exec sc (init sc) cert) as [s|]; [|discriminate].
+  exists s. split; [reflexivity|]. apply actions_eqb_eq. exact H.
+Qed.
+
+Lemma filter_split {A} (p : A -> bool) (l : list A) : forall o1 a o2,
+  filter p l = o1 ++ a :: o2 ->
+  exists l1 l2, l = l1 ++ a :: l2 /\ filter p l1 = o1 /\ filter p l2 = o2.
+Proof.
+  induction l as [|x l IH]; intros o1 a o2 H; simpl in H.
+  - destruct o1; discriminate.
+  - destruct (p x) eqn:Ep.
+    + destruct o1 as [|y o1]; simpl in H.
+      * inversion H; subst. exists [], l. simpl. auto.
+      * inversion H; subst. destruct (IH o1 a o2 H2) as [l1 [l2 [-> [H3 H4]]]].
+        exists (y :: l1), l2. simpl. rewrite Ep, H3. auto.
+    + destruct (IH o1 a o2 H) as [l1 [l2 [-> [H3 H4]]]].
+      exists (x :: l1), l2. simpl. rewrite Ep. auto.
+Qed.
+
+Lemma cnt_filter p q l : (forall a, p a = true -> q a = true) -> cnt p (filter q l) = cnt p l.
+Proof.
+  intros Hpq. unfold cnt. induction l as [|a l IH]; simpl; [reflexivity|].
+  destruct (q a) eqn:Eq; simpl.
+  - destruct (p a); simpl; rewrite IH; reflexivity.
+  - destruct (p a) eqn:Ep; [rewrite (Hpq a Ep) in Eq; discriminate|exact IH].
+Qed.
+
+Section Arrival.
+  Variable sc : scenario.
+  Hypothesis Hwf : wf_sc sc.
+
+  Lemma step_arrived s a s' : step sc s a = Some s' -> (s_arrived s <= s_arrived s')%nat.
+  Proof.
+    intros H. destruct a; step_inv H; lia.
+  Qed.
+
+  Lemma exec_arrived tr : forall s s', exec sc s tr = Some s' -> (s_arrived s <= s_arrived s')%nat.
+  Proof.
+    induction tr as [|a tr IH]; simpl; intros s s' H; [inversion H; lia|].
+    destruct (step sc s a) as [s1|] eqn:E; [|discriminate].
+    apply step_arrived in E. apply IH in H. lia.
+  Qed.
+
+  (* the dispatcher only works on events that have arrived *)
+  Lemma arrived_inv tr s :
+    exec sc (init sc) tr = Some s -> (dpos (s_disp s) <= 9 * s_arrived s)%nat.
+  Proof.
+    revert tr s.
+    assert (forall tr s, exec sc (init sc) tr = Some s ->
+              match s_disp s with
+              | DIdle m => (m <= s_arrived s)%nat
+              | DPhase m _ => (m < s_arrived s)%nat
+              | DWait m _ _ => (m < s_arrived s)%nat
+              end) as H.
+    { apply run_ind; [simpl; lia|].
+      intros tr s a s' _ IH Hst. destruct a; step_inv Hst; try rewrite E0 in IH; try rewrite E1 in IH;
+        try exact IH;
+        repeat match goal with
+               | X : (_ && _)%bool = true |- _ => apply Bool.andb_true_iff in X as [? ?]
+               | X : Nat.eqb _ _ = true |- _ => apply Nat.eqb_eq in X
+               | X : Nat.ltb _ _ = true |- _ => apply Nat.ltb_lt in X
+               end; subst; try lia.
+      destruct (s_disp s); lia. }
+    intros tr s Hrun. specialize (H tr s Hrun). destruct (s_disp s); simpl.
+    - lia.
+    - pose proof (Nat.le_min_r k 3). lia.
+    - pose proof (Nat.le_min_r k 3). lia.
+  Qed.
+
+  (* a handler that is gone before event n arrives is not started for event n *)
+  Theorem removed_before_arrival c1 c2 s n h :
+    exec sc (init sc) (c1 ++ c2) = Some s ->
+    In h (added sc c1) -> ~ In h (reg_of sc c1) -> In (AArrive n) c2 ->
+    ~ In (AStart n h) (c1 ++ c2).
+  Proof.
+    intros Hrun Ha Hr Harr Hin. apply is_start_in in Hin.
+    destruct (inv_run sc Hwf _ _ Hrun) as [_ HB]. pose proof (b_c1 _ _ _ HB n h) as Hc1.
+    rewrite (removed_no_spawn sc Hwf c2 c1 s n h Hrun Ha Hr) in Hc1.
+    apply exec_prefix in Hrun as [s1 [H1 H2]].
+    assert (s_arrived s1 <= n)%nat as Hle.
+    { apply in_split in Harr as [u [v ->]]. apply exec_prefix in H2 as [su [Hu Hv]].
+      simpl in Hv. destruct (step sc su (AArrive n)) as [s3|] eqn:Est; [|discriminate].
+      pose proof (exec_arrived _ _ _ Hu). unfold step in Est.
+      destruct (s_crashed su); [discriminate|].
+      destruct (Nat.eqb n (s_arrived su)) eqn:En; simpl in Est; [|discriminate].
+      apply Nat.eqb_eq in En. lia. }
+    pose proof (arrived_inv c1 s1 H1) as Hpos.
+    destruct (inv_run sc Hwf _ _ H1) as [_ HB1]. destruct (b_c3 _ _ _ HB1 n h) as [_ Hc3].
+    destruct (spawned sc c1 n h) eqn:Es; [lia|].
+    destruct Hc3 as [k [_ Hk]]; lia.
+  Qed.
+End Arrival.
+
+Section Accepted.
+  Variable sc : scenario.
+  Variables cert obs : list action.
+  Hypothesis Hacc : accepts sc cert obs = true.
+  Hypothesis Huid : uid_ok (sc_uid sc).
+
+  Lemma obs_in a : In a obs -> In a cert.
+  Proof.
+    destruct (accepts_sound sc cert obs Hacc Huid) as [_ [s [_ <-]]].
+    intros H. apply filter_In in H. tauto.
+  Qed.
+
+  (* exactly once, and only to handlers that were registered and are routed *)
+  Theorem accepted_exactly_once n h :
+    (cnt (is_start n h) obs <= 1)%nat /\
+    (In (AStart n h) obs -> In h (added sc cert) /\ routed (sc_decl sc) h (ev_at sc n) = true).
+  Proof.
+    destruct (accepts_sound sc cert obs Hacc Huid) as [Hwf [s [Hrun Hobs]]].
+    destruct (exactly_once sc Hwf cert s n h Hrun) as [H1 [H2 _]]. split.
+    - rewrite <- Hobs, cnt_filter; [exact H1|]. intros a. destruct a; simpl; congruence.
+    - intros Hin. apply obs_in in Hin. destruct (H2 Hin) as [tr1 [k [tr2 [E [Hi Hr]]]]].
+      split.
+      + subst cert. apply exec_prefix in Hrun as [s1 [Hr1 Hr2]].
+        destruct (inv_run sc Hwf _ _ Hr1) as [HA _]. apply (a_sub _ _ _ HA) in Hi.
+        clear -Hi. induction (ASnap n k :: tr2) as [|a l IH] using rev_ind; [rewrite app_nil_r; exact Hi|].
+        rewrite app_assoc. apply added_mono. exact IH.
+      + unfold routed. rewrite Hr. reflexivity.
+  Qed.
+
+  (* ordered: a foreground handler of event n has returned before any handler is started for a
+     later event *)
+  Theorem accepted_ordered o1 o2 n m h h' :
+    obs = o1 ++ AStart m h' :: o2 -> (n < m)%nat -> is_bgh sc h = false ->
+    In (AStart n h) obs -> exists o, In (AEnd n h o) o1.
+  Proof.
+    intros E Hnm Hfg Hin.
+    destruct (accepts_sound sc cert obs Hacc Huid) as [Hwf [s [Hrun Hobs]]].
+    rewrite E in Hobs. destruct (filter_split _ _ _ _ _ Hobs) as [c1 [c2 [Ec [H1 H2]]]].
+    apply obs_in in Hin. rewrite Ec in Hrun, Hin.
+    destruct (ordered_starts sc Hwf c1 c2 s n m h h' Hrun Hnm Hfg Hin) as [o Ho].
+    exists o. rewrite <- H1. apply filter_In. auto.
+  Qed.
+
+  (* removed handlers stay silent: after Remove returned true, or after done was seen closed,
+     no event that arrives later starts the handler *)
+  Theorem accepted_removed_silent o1 o2 i n h :
+    obs = o1 ++ ARet i (RRemove h) true :: o2 -> In (AArrive n) o2 -> ~ In (AStart n h) obs.
+  Proof.
+    intros E Harr Hin.
+    destruct (accepts_sound sc cert obs Hacc Huid) as [Hwf [s [Hrun Hobs]]].
+    rewrite E in Hobs. destruct (filter_split _ _ _ _ _ Hobs) as [c1 [c2 [Ec [H1 H2]]]].
+    apply obs_in in Hin. rewrite Ec in Hrun, Hin.
+    replace (c1 ++ ARet i (RRemove h) true :: c2) with ((c1 ++ [ARet i (RRemove h) true]) ++ c2) in Hrun, Hin
+      by (rewrite <- app_assoc; reflexivity).
+    pose proof Hrun as Hrun'. apply exec_prefix in Hrun' as [s1 [Hr1 _]].
+    destruct (remove_true_removed sc Hwf _ s1 i h Hr1) as [Ha Hr]; [apply in_app_iff; simpl; auto|].
+    apply (removed_before_arrival sc Hwf _ c2 s n h Hrun Ha Hr); auto.
+    rewrite <- H2 in Harr. apply filter_In in Harr. tauto.
+  Qed.
+
+  Theorem accepted_closed_silent o1 o2 n h :
+    obs = o1 ++ AClose h :: o2 -> In (AArrive n) o2 -> ~ In (AStart n h) obs.
+  Proof.
+    intros E Harr Hin.
+    destruct (accepts_sound sc cert obs Hacc Huid) as [Hwf [s [Hrun Hobs]]].
+    rewrite E in Hobs. destruct (filter_split _ _ _ _ _ Hobs) as [c1 [c2 [Ec [H1 H2]]]].
+    apply obs_in in Hin. rewrite Ec in Hrun, Hin.
+    replace (c1 ++ AClose h :: c2) with ((c1 ++ [AClose h]) ++ c2) in Hrun, Hin
+      by (rewrite <- app_assoc; reflexivity).
+    pose proof Hrun as Hrun'. apply exec_prefix in Hrun' as [s1 [Hr1 _]].
+    destruct (close_implies_removed sc Hwf _ s1 h Hr1) as [Ha Hr]; [apply in_app_iff; simpl; auto|].
+    apply (removed_before_arrival sc Hwf _ c2 s n h Hrun Ha Hr); auto.
+    rewrite <- H2 in Harr. apply filter_In in Harr. tauto.
+  Qed.
+
+  Theorem accepted_done_once h : (cnt (is_close h) obs <= 1)%nat.
+  Proof.
+    destruct (accepts_sound sc cert obs Hacc Huid) as [Hwf [s [Hrun Hobs]]].
+    rewrite <- Hobs, cnt_filter; [exact (done_closed_once sc Hwf cert s h Hrun)|].
+    intros a. destruct a; simpl; congruence.
+  Qed.
+End Accepted.
+
+(* ---- the hypotheses are satisfiable: a well-formed scenario and an accepted run of it ----------- *)
+
+Definition ex_sc : scenario :=
+  mkSc ex_uid
+       [mkHD (bs "Foo") false false false false;      (* 0: Add("Foo") *)
+        mkHD (bs "*") true false false false;         (* 1: AddBg("*") *)
+        mkHD (bs "foo") true true false true]         (* 2: AddTmp("foo", deadline > 0) *)
+       [0; 1]
+       [mkEv (bs "FOO") false; mkEv (bs "PRIVMSG") true]
+       [[RAdd 2; RRemove 0]]
+       true.
+
+Definition ex_cert : list action :=
+  [AArrive 0; ACall 0 (RAdd 2); ALin 0 (RAdd 2); ARet 0 (RAdd 2) true;
+   ADeliver 0; ASnap 0 0; ASignal 0 1; ABarrier 0 0; ASnap 0 1; ASignal 0 2; ABarrier 0 1;
+   ASnap 0 2; ABarrier 0 2; ASnap 0 3; AStart 0 0; AEnd 0 0 OPanic; ABarrier 0 3;
+   AStart 0 1; AEnd 0 1 (ORet false); AStart 0 2; AEnd 0 2 (ORet true); ATmpRemove 2; AClose 2;
+   ACall 0 (RRemove 0); ALin 0 (RRemove 0); ARet 0 (RRemove 0) true;
+   AArrive 1; ADeliver 1; ASnap 1 0; ASignal 1 1; ABarrier 1 0; ASnap 1 1; ABarrier 1 1;
+   ASnap 1 2; ABarrier 1 2; ASnap 1 3; ABarrier 1 3; AStart 1 1; AEnd 1 1 (ORet false);
+   ATmpRemove 2].
+
+Example ex_sc_wf : wf_sc ex_sc.
+Proof. split; [reflexivity|exact ex_uid_ok]. Qed.
+
+Example ex_accepted : accepts ex_sc ex_cert (filter observable ex_cert) = true.
+Proof. vm_compute. reflexivity. Qed.
+
+Example ex_is_trace : is_trace ex_sc ex_cert /\ In (AStart 0 2) ex_cert /\ In (AClose 2) ex_cert.
+Proof.
+  split.
+  - destruct (accepts_sound _ _ _ ex_accepted ex_uid_ok) as [_ [s [H _]]]. exists s. exact H.
+  - split; simpl; tauto.
+Qed.
